@@ -24,9 +24,6 @@ type Case struct {
 func check(c Case, o *vf.Obs) error {
 	sems := gen.Sems(c.Constrs)
 	n := oracle.MaxVarConstrs(sems)
-	if c.NbMax != 0 && c.NbMax <= n {
-		c.NbMax = n + 1
-	}
 	gs.Arm(c.NbMax, gs.DefaultStepLimit)
 	defer gs.Arm(0, 0)
 	o.Class("front-" + c.Front)
@@ -90,7 +87,7 @@ func genCase(front string) func(t *rapid.T) Case {
 		_, ps := gen.PBConstrs(t, gen.PBOpts{MinN: 1, MaxN: 10, MaxConstrs: 8, MaxArity: 8, Card: front == "card"})
 		c := Case{Front: front, Constrs: ps}
 		if gen.Chance(t, 1, 3, "nbmax") {
-			c.NbMax = 11
+			c.NbMax = rapid.IntRange(2, 12).Draw(t, "limit")
 		}
 		return c
 	}
